@@ -633,6 +633,17 @@ class Gen:
         g = self.groups[f.group]
         uni = list(g['species']) if rng.random() < 0.5 else self._species_universe()
         sp = {fld: list(uni) for fld in G.species_fields(fsets)}
+        later = None
+        if sp and rng.random() < 0.35:
+            # results after the first one carry other species: subsets, or (sometimes) new ones
+            pool = list(uni) + ([x for x in G.SPECIES_NAMES if x not in uni][:2] if rng.random() < 0.4 else [])
+            later = {fld: sorted(rng.sample(pool, rng.randint(1, len(pool))), key=G.SPECIES_NAMES.index)
+                     for fld in sp}
+        if later:
+            return {'op': 'create_assoc', 'sess': sess.sid,
+                    'file': f'{f.name[:-3]}.x{len(f.extra_assoc)}.nc', 'fs': fsets,
+                    'fn_seed': rng.randint(1, 10 ** 6), 'species': sp, 'species_later': later,
+                    'extreme': rng.random() < self.cfg['extreme_p']}
         return {'op': 'create_assoc', 'sess': sess.sid, 'file': f'{f.name[:-3]}.x{len(f.extra_assoc)}.nc',
                 'fs': fsets, 'fn_seed': rng.randint(1, 10 ** 6), 'species': sp,
                 'extreme': rng.random() < self.cfg['extreme_p']}
